@@ -146,6 +146,8 @@ def main(prop, tier, seed):
                     elif via == "plot":
                         d = tlc.scratch("plot-")
                         try:
+                            with open(os.path.join(d, "p.dat"), "w") as old:      # the file exists already and is longer than the new plot
+                                old.write("9.9 9.9\n" * (n + 7))
                             AP.plot(os.path.join(d, "p.dat"), lo, hi, f, n)
                             text = open(os.path.join(d, "p.dat")).read()
                         finally:
